@@ -2,6 +2,7 @@ package syncx_test
 
 import (
 	"fmt"
+	"runtime"
 	"sync"
 	"sync/atomic"
 	"testing"
@@ -27,22 +28,53 @@ func c18RefInterp(t *testing.T, c c18Case) kit.Verdict {
 	v := c18NewV()
 	c18CaseClasses(v, c)
 	var cleanMu sync.Mutex
-	var cleans []c18Stamp
-	log, res := c18PlayRounds(t, c, true, func(clk *c18Clock, log *c18Log) (func(g, i int, op c18Op), func()) {
-		rr := syncx.NewRefResource(func() {
-			st := clk.now()
-			cleanMu.Lock()
-			cleans = append(cleans, st)
-			cleanMu.Unlock()
-			if c.N == 1 {
-				// Clean holds the resource's mutex with a deferred Unlock and has
-				// marked the resource cleaned before it calls the function
-				panic(c18Panic{"ref-resource clean"})
-			}
-		})
+	var cleansOf [c18Inst][]c18Stamp
+	var handshakes atomic.Int32
+	// rounds (spin barrier before every i-th operation of a burst) only in half
+	// of the cases: without it the goroutines of a burst run freely, so that a
+	// call of one can arrive while the clean function of another is still inside
+	full, res := c18PlayRounds(t, c, c.X == 0, func(clk *c18Clock, log *c18Log) (func(g, i int, op c18Op), func()) {
+		var rrs [c18Inst]*syncx.RefResource
+		var arrivals [c18Inst]atomic.Int32
+		for m := 0; m < c18Inst; m++ {
+			m := m
+			rrs[m] = syncx.NewRefResource(func() {
+				st := clk.now()
+				cleanMu.Lock()
+				cleansOf[m] = append(cleansOf[m], st)
+				cleanMu.Unlock()
+				// A slow clean function. It runs under the resource's mutex, so it
+				// cannot sleep in virtual time (a waiter on a sync.Mutex is not
+				// durably blocked: the bubble would wedge); it is slow in REAL terms:
+				// it stays inside (bounded spin, c.P iterations) until another
+				// goroutine is about to call Use / Clean on this resource, and then a
+				// little longer, so that this call really arrives during the clean
+				// function. Nothing depends on whether the meeting happens.
+				a0 := arrivals[m].Load()
+				for s := 0; s < c.P; s++ {
+					if arrivals[m].Load() != a0 {
+						handshakes.Add(1)
+						for y := 0; y < 30; y++ {
+							runtime.Gosched()
+						}
+						break
+					}
+					if s > 20 {
+						runtime.Gosched()
+					}
+				}
+				if c.N == 1 {
+					// Clean holds the resource's mutex with a deferred Unlock and has
+					// marked the resource cleaned before it calls the function
+					panic(c18Panic{"ref-resource clean"})
+				}
+			})
+		}
 		return func(g, i int, op c18Op) {
+			rr := rrs[op.M]
 			ev := c18Ev{G: g, I: i, Op: op, Sub: "use"}
 			ev.Inv = clk.now()
+			arrivals[op.M].Add(1)
 			err := rr.Use()
 			ev.Ret = clk.now()
 			ev.OK = err == nil
@@ -56,6 +88,7 @@ func c18RefInterp(t *testing.T, c c18Case) kit.Verdict {
 			if ev.OK || op.A == 1 {
 				ce := c18Ev{G: g, I: i, Op: op, Sub: "clean", OK: ev.OK}
 				ce.Inv = clk.now()
+				arrivals[op.M].Add(1)
 				pan, foreign := c18Try(func() { rr.Clean() })
 				ce.Ret = clk.now()
 				ce.Pan = pan
@@ -66,12 +99,39 @@ func c18RefInterp(t *testing.T, c c18Case) kit.Verdict {
 			}
 		}, nil
 	})
+	if c.P > 0 {
+		v.class("slow-clean-function(real-time)")
+	}
+	if handshakes.Load() > 0 {
+		v.class("a-call-arrived-while-the-clean-function-was-inside")
+		v.nt = true
+	}
+	// every instance is judged on its own history (a RefResource has no state
+	// outside itself: what one instance does must not show in the other)
+	for inst := 0; inst < c18Inst; inst++ {
+		log := full.inst(inst)
+		if len(log.evs) == 0 {
+			if len(cleansOf[inst]) != 0 {
+				v.failf("ref-resource[instance %d]: clean function ran without any call on this instance", inst)
+			}
+			continue
+		}
+		c18RefJudge(v, c, log, cleansOf[inst], res, inst)
+	}
+	return v.done(res)
+}
+
+func c18RefJudge(v *c18V, c c18Case, log *c18Log, cleans []c18Stamp, res kit.BubbleResult, inst int) {
+	what := "ref-resource"
+	if inst > 0 {
+		what += fmt.Sprintf("[instance %d]", inst)
+	}
 	uses := 0
 	var lb c18Bound // uses certainly outstanding
 	var pops []porcupine.Operation
 	for _, ev := range log.evs {
 		if ev.Err == -1 {
-			v.failf("ref-resource: Use g%d#%d returned an unexpected error value", ev.G, ev.I)
+			v.failf(what+": Use g%d#%d returned an unexpected error value", ev.G, ev.I)
 		}
 		switch ev.Sub {
 		case "use":
@@ -84,7 +144,7 @@ func c18RefInterp(t *testing.T, c c18Case) kit.Verdict {
 			pops = append(pops, porcupine.Operation{ClientId: ev.G, Input: c18PIn{K: "use"}, Output: c18POut{OK: ev.OK}, Call: ev.Inv.S, Return: ev.Ret.S})
 		case "clean":
 			if ev.Foreign != "" || (ev.Pan && c.N != 1) {
-				v.failf("ref-resource: Clean g%d#%d panicked although the clean function does not: %s", ev.G, ev.I, ev.Foreign)
+				v.failf(what+": Clean g%d#%d panicked although the clean function does not: %s", ev.G, ev.I, ev.Foreign)
 			}
 			if ev.Pan {
 				v.class("clean-function-panicked")
@@ -99,36 +159,36 @@ func c18RefInterp(t *testing.T, c c18Case) kit.Verdict {
 	}
 	lb = lb.sorted()
 	if len(cleans) > 1 {
-		v.failf("ref-resource: the clean function ran %d times (stamps %v)", len(cleans), cleans)
+		v.failf(what+": the clean function ran %d times (stamps %v)", len(cleans), cleans)
 	}
 	if res.OK() {
 		// every successful Use was matched by a Clean, so the count ended at zero
 		if uses > 0 && len(cleans) == 0 {
-			v.failf("ref-resource: %d uses were all released but the clean function never ran", uses)
+			v.failf(what+": %d uses were all released but the clean function never ran", uses)
 		}
 		if uses == 0 && len(cleans) != 0 {
-			v.failf("ref-resource: clean function ran without any use")
+			v.failf(what+": clean function ran without any use")
 		}
 	}
 	if len(cleans) > 0 {
 		at := cleans[0]
 		if mn, _ := lb.rangeOver(at.S, at.S); mn > 0 {
-			v.failf("ref-resource: the clean function ran (stamp %d, t=%v) while at least %d uses were still outstanding", at.S, at.T, mn)
+			v.failf(what+": the clean function ran (stamp %d, t=%v) while at least %d uses were still outstanding", at.S, at.T, mn)
 		}
 		for _, ev := range log.evs {
 			if ev.Sub == "use" && ev.OK && ev.Inv.S > at.S {
-				v.failf("ref-resource: Use g%d#%d invoked after the resource was cleaned (stamp %d > %d) succeeded", ev.G, ev.I, ev.Inv.S, at.S)
+				v.failf(what+": Use g%d#%d invoked after the resource was cleaned (stamp %d > %d) succeeded", ev.G, ev.I, ev.Inv.S, at.S)
 			}
 			if ev.Sub == "use" && !ev.OK {
 				if ev.Ret.S < at.S {
-					v.failf("ref-resource: Use g%d#%d was refused before the resource was cleaned", ev.G, ev.I)
+					v.failf(what+": Use g%d#%d was refused before the resource was cleaned", ev.G, ev.I)
 				}
 			}
 		}
 	} else {
 		for _, ev := range log.evs {
 			if ev.Sub == "use" && !ev.OK {
-				v.failf("ref-resource: Use g%d#%d was refused although the resource was never cleaned", ev.G, ev.I)
+				v.failf(what+": Use g%d#%d was refused although the resource was never cleaned", ev.G, ev.I)
 			}
 		}
 	}
@@ -155,7 +215,7 @@ func c18RefInterp(t *testing.T, c c18Case) kit.Verdict {
 		ref     int
 		cleaned bool
 	}
-	c18Linearizable(v, "ref-resource", porcupine.Model{
+	c18Linearizable(v, what, porcupine.Model{
 		Init: func() interface{} { return st{} },
 		Step: func(state, in, out interface{}) (bool, interface{}) {
 			s, i, o := state.(st), in.(c18PIn), out.(c18POut)
@@ -178,7 +238,6 @@ func c18RefInterp(t *testing.T, c c18Case) kit.Verdict {
 			return false, s
 		},
 	}, pops)
-	return v.done(res)
 }
 
 func c18RefGen(rt *rapid.T) c18Case {
@@ -187,6 +246,23 @@ func c18RefGen(rt *rapid.T) c18Case {
 	})}
 	if rapid.IntRange(0, 3).Draw(rt, "cleanPanics") == 0 {
 		c.N = 1 // the clean function panics (recovered by the caller of Clean)
+	}
+	c18DrawInstances(rt, c.Gs)
+	// real-time hold of the clean function (spin bound); long only in bursts,
+	// where another goroutine can arrive at the same virtual instant
+	burst := true
+	for _, g := range c.Gs {
+		for _, o := range g {
+			if o.G != 0 || o.H != 0 {
+				burst = false
+			}
+		}
+	}
+	if burst {
+		c.P = rapid.SampledFrom([]int{0, 300, 3000, 3000}).Draw(rt, "cleanSpins")
+		c.X = rapid.IntRange(0, 1).Draw(rt, "freeRunning")
+	} else {
+		c.P = rapid.SampledFrom([]int{0, 0, 100, 300}).Draw(rt, "cleanSpins")
 	}
 	return c
 }
